@@ -114,6 +114,11 @@ Node::Node(NodeOpts opts)
         // honour -prune / -fastprune given in extra_args
         auto r = node::ApplyArgsManOptions(m_args, blockman_opts);
         Assert(r);
+        // extra_args are parsed into the global ArgsManager (m_node.args), not into m_args
+        if (m_node.args && m_node.args != &m_args) {
+            auto r2 = node::ApplyArgsManOptions(*m_node.args, blockman_opts);
+            Assert(r2);
+        }
     }
     m_node.chainman = std::make_unique<ChainstateManager>(*Assert(m_node.shutdown_signal), chainman_opts, blockman_opts);
 
